@@ -606,6 +606,13 @@ def close_loops(summary, term, _seen=None):
             seen2 = seen | {(t[1], name)}
             # carried names the update depends on (transitively, also through nested loops), in order of first use
             order, closed, i = [name], {}, 0
+            # (a `while` loop's condition may read carried names the accumulator itself never mentions - the counter of `while k < n` -:
+            # they are part of the loop's meaning too)
+            cond_closed = close_loops(summary, lp.iterable, seen2) if lp.kind == "while" and isinstance(lp.iterable, tuple) else None
+            if cond_closed is not None:
+                for x in walk(cond_closed):
+                    if x[0] == "acc" and x[1] == d and isinstance(x[2], str) and x[2] in lp.update and x[2] not in order:
+                        order.append(x[2])
             while i < len(order):
                 n = order[i]
                 i += 1
@@ -617,8 +624,8 @@ def close_loops(summary, term, _seen=None):
             extra = tuple((close_loops(summary, lp.init.get(n, ("undef", n)), seen2), subst(closed[n], m)) for n in order[1:])
             if lp.breaks:
                 # a loop that can be left early is kept as an opaque 'bfold' (compared structurally only, never canonicalised)
-                return ("bfold", lp.kind, d, close_loops(summary, lp.iterable, seen2), close_loops(summary, init, seen2), subst(closed[name], m), extra, subst(_closed_breaks(summary, lp, seen2), m))
-            return ("fold", lp.kind, d, close_loops(summary, lp.iterable, seen2), close_loops(summary, init, seen2), subst(closed[name], m), extra)
+                return ("bfold", lp.kind, d, subst(close_loops(summary, lp.iterable, seen2), m), close_loops(summary, init, seen2), subst(closed[name], m), extra, subst(_closed_breaks(summary, lp, seen2), m))
+            return ("fold", lp.kind, d, subst(close_loops(summary, lp.iterable, seen2), m), close_loops(summary, init, seen2), subst(closed[name], m), extra)
         if h == "phi":
             return ("acc", depth_of(t[1]), t[2]) if isinstance(t[2], str) else t
         if h == "iter":
